@@ -8,9 +8,11 @@ import (
 	"testing"
 	"time"
 
+	gspb "google.golang.org/genproto/googleapis/rpc/status"
 	"google.golang.org/grpc/codes"
 	"google.golang.org/grpc/status"
 	"google.golang.org/protobuf/proto"
+	"google.golang.org/protobuf/types/known/anypb"
 
 	aftpb "github.com/openconfig/gribi/v1/proto/gribi_aft"
 	spb "github.com/openconfig/gribi/v1/proto/service"
@@ -549,6 +551,47 @@ func catalogue() []catEntry {
 						return nil
 					}
 					return req
+				}}
+			},
+		},
+		{
+			// the canonical code is right, the ModifyRPCErrorDetails reason is not
+			Name: "session-error-reason-misreported",
+			// (the two other tests that name a reason - election id in ALL_PRIMARY mode, differing
+			// parameters - negotiate ALL_PRIMARY, which the reference server answers UNIMPLEMENTED: they
+			// take the AllowUnimplemented branch and never reach a FAILED_PRECONDITION reason here)
+			Designated: names("Modify RPC Connection with invalid persist/redundancy parameters",
+				"Election - Ensure that a client with mismatched parameters is rejected"),
+			Fault: func() *faults.Fault {
+				return &faults.Fault{ModifyStatus: func(err error) error {
+					st, ok := status.FromError(err)
+					if !ok || st.Code() != codes.FailedPrecondition {
+						return err
+					}
+					p := st.Proto()
+					out := proto.Clone(p).(*gspb.Status)
+					out.Details = nil
+					changed := false
+					for _, d := range p.GetDetails() {
+						m := &spb.ModifyRPCErrorDetails{}
+						if d.UnmarshalTo(m) == nil {
+							if m.Reason == spb.ModifyRPCErrorDetails_MODIFY_NOT_ALLOWED {
+								m.Reason = spb.ModifyRPCErrorDetails_UNSUPPORTED_PARAMS
+							} else {
+								m.Reason = spb.ModifyRPCErrorDetails_MODIFY_NOT_ALLOWED
+							}
+							if a, e := anypb.New(m); e == nil {
+								out.Details = append(out.Details, a)
+								changed = true
+								continue
+							}
+						}
+						out.Details = append(out.Details, d)
+					}
+					if !changed {
+						return err
+					}
+					return status.FromProto(out).Err()
 				}}
 			},
 		},
